@@ -329,7 +329,7 @@ func runHistory(h histCase) (int, string, string) {
 func universeGen(sys string) *rapid.Generator[gen.Universe] {
 	switch sys {
 	case "npm":
-		return gen.NPMUniverse(gen.NPMOpts{Aliases: true})
+		return gen.NPMUniverse(gen.NPMOpts{Aliases: true, Ties: true})
 	case "maven":
 		return gen.MavenUniverse(gen.MavenUOpts{})
 	}
